@@ -4,7 +4,7 @@
 (* deletion, duplication and adjacent swap) of representative sentences.                   *)
 EXTENDS Integers, Sequences, Json, IOUtils, SequencesExt, FiniteSets, TLC
 
-Extremes == {"0", "00", "1", "9", "10", "99", "100", "255", "256", "1000", "9999", "10000", "65535", "65536", "99999",
+Extremes == {"0", "00", "1", "9", "10", "12", "23", "24", "25", "47", "48", "49", "59", "60", "99", "100", "255", "256", "1000", "9999", "10000", "65535", "65536", "99999",
              "2147483647", "2147483648", "4294967295", "4294967296", "9223372036854775807", "9223372036854775808",
              "18446744073709551615", "18446744073709551616", "99999999999999999999999999", "999999999", "146097", "2932896"}
 Slots == {<<"Mo[1] +", " days">>, <<"Mo[1] -", " days">>, <<"PH +", " days">>, <<"PH -", " day">>, <<"Jan 1 +", " days">>,
